@@ -392,3 +392,54 @@ def operand_trace(fn, op):
 
 def place_trace(fn, pl):
     return {l for l, f in trace_items(fn, _place_item(pl))}
+
+
+def try_payload_defs(fn, e, depth=0):
+    """Look through `helper(..)?`: if e is (Try::branch(X) as Continue).0, the values X can carry in its Ok / Some variant.
+
+    Returns [(payload_expr, bb)] - one entry per aggregate `Ok(v)` / `Some(v)` that can reach X (through copies and the result local of
+    an inlined helper), bb being the block of that aggregate; None when e is not of this shape or X cannot be followed."""
+    if not (isinstance(e, tuple) and e and e[0] == "field" and e[2] == 0 and isinstance(e[1], tuple) and e[1][0] == "downcast" and e[1][2] == "Continue"
+            and is_call(e[1][1], "Try>::branch", "Try::branch")):
+        return None
+    x = e[1][1][2][0]
+    out = []
+    seen = set()
+
+    def follow(v, d):
+        if d > 8:
+            return False
+        if isinstance(v, tuple) and v and v[0] == "local":
+            if v[1] in seen:
+                return True
+            seen.add(v[1])
+            ok = True
+            for dd in defs_of(fn).all(v[1]):
+                if dd[0] == "stmt":
+                    rv = dd[3]["rv"]
+                    if rv["k"] == "agg" and rv.get("variant") in ("Ok", "Some") and len(rv["ops"]) == 1:
+                        out.append((operand_expr(fn, rv["ops"][0]), dd[1]))
+                    elif rv["k"] == "agg" and rv.get("variant") in ("Err", "None"):
+                        pass
+                    elif rv["k"] == "use" and rv["op"].get("k") in ("copy", "move") and "p" not in rv["op"]["pl"]:
+                        ok = follow(("local", rv["op"]["pl"]["l"], None), d + 1) and ok
+                    else:
+                        ok = False
+                elif dd[0] == "call":
+                    c = dd[2]
+                    # Err(..) built through a conversion stays an Err; anything else is opaque
+                    if not (callee_of_path(c).endswith("from_residual")):
+                        ok = False
+                else:
+                    ok = False
+            return ok
+        if isinstance(v, tuple) and v and v[0] == "agg" and v[2] in ("Ok", "Some") and len(v[3]) == 1:
+            out.append((v[3][0], None))
+            return True
+        return False
+    return out if follow(x, 0) and out else None
+
+
+def callee_of_path(term):
+    f = term.get("func", {})
+    return (f.get("res") or {}).get("rpath") or f.get("fn") or ""
